@@ -81,3 +81,31 @@ Proof. destruct v; reflexivity. Qed.
 (* closed / closing channel: the panic is swallowed, nothing else happens *)
 Theorem invoke_closed_swallows hs t v : invoke hs true (t, Escaped v) = (t, Done).
 Proof. reflexivity. Qed.
+
+(* ---------------- the observation checker of Model/PipeCheck.v demands no more than the model gives:
+   an exception fired into the pipeline is first seen by the first exception handler from the head ---------------- *)
+From GN Require Import Model.PipeCheck.
+Lemma exc_run_first_gen : forall (l : list handler) (b : nat) x,
+  match first_exc_visit (map oev_of (fst (exc_run (combine (seq b (length l)) l) x))) with
+  | None => True
+  | Some p => first_exc_pos l b = Some p
+  end.
+Proof.
+  induction l as [|h r IH]; intros b x; [exact I|].
+  cbn [length seq combine exc_run first_exc_pos]. destruct (caps h KException) eqn:Ec.
+  - destruct (behav h KException) eqn:Eb;
+      try (cbn [fst map oev_of first_exc_visit]; reflexivity);
+      try (destruct (exc_run (combine (seq (S b) (length r)) r) x) as [t s]; cbn [fst map oev_of first_exc_visit]; reflexivity).
+    all: cbn [fst map oev_of first_exc_visit]; try reflexivity; try exact I; try (destruct x; exact I).
+  - apply IH.
+Qed.
+
+Theorem exception_first_seen_from_head : forall hs x,
+  exc_from_head hs (map oev_of (fst (exc_run (contexts hs) x))) = true.
+Proof.
+  intros hs x. unfold exc_from_head, contexts.
+  pose proof (exc_run_first_gen (head_h :: hs ++ [tail_h]) 0 x) as H.
+  destruct (first_exc_visit _) as [p|]; [|reflexivity].
+  cbn [first_exc_pos] in H. change (caps head_h KException) with false in H. cbn iota in H.
+  rewrite H. apply Nat.eqb_refl.
+Qed.
